@@ -5,6 +5,7 @@ ENGINES = {
     'C04': 'sim.engines.c04',
     'C05': 'sim.engines.machine',
     'C07': 'sim.engines.c07',
+    'C08': 'sim.engines.c08',
     'C14': 'sim.engines.c14',
     'C15': 'sim.engines.c15',
     'C16': 'sim.engines.c16',
@@ -20,13 +21,19 @@ ENGINE_TABLE = [
      'kind_free_text': 'the front end under test runs as fresh OS processes (setarch -R, seeded PYTHONHASHSEED) that fork per job; jobs carry a seeded heap-noise prelude, a seeded history of earlier jobs in the same process and write faults of the in-memory file system; outputs are compared with a pristine reference process and with the Metamath reference model R4'},
     {'name': 'E-pipeline', 'path': 'sim/engines/pipeline.py', 'serves_properties': ['C02', 'C03', 'C14', 'C19'],
      'kind_free_text': 'proof modules composed with the real toolkit (seeded forward composition of primitive rules and every public library lemma over an import graph), serialised by the real ProofExp.serialize through an in-memory file system (SimFS) installed at the module-global open seam, then handed to the real Rust checker, the reference machine R1, the journal model R6 and the real deserialiser; stream faults injected into the live byte stream'},
-    {'name': 'E-history', 'path': 'sim/engines/history.py', 'serves_properties': ['C04', 'C07'],
+    {'name': 'E-history', 'path': 'sim/engines/history.py', 'serves_properties': ['C04', 'C07', 'C08'],
      'kind_free_text': 'seeded histories of proof-DSL calls (incl. adversarial, inapplicable calls) issued to a real SerializingInterpreter (bare or under MemoizingInterpreter / InstantiationOptimizer) writing to in-memory sinks; lock-step refinement of the emitted bytes against the reference machine R1 and the real Rust checker'},
     {'name': 'E-machine', 'path': 'sim/engines/machine.py', 'serves_properties': ['C01', 'C05'],
      'kind_free_text': 'seeded instruction streams and stream faults (truncate/overwrite/flip/drop/dup/swap/misroute) driven through the real Rust checker (lib.rs by textual inclusion) stepped per instruction, against the reference machine R1'},
 ]
 
 META = {
+    'C08': {
+        'engine': 'E-history', 'level': 'exploration', 'design_ref': 'DESIGN.md section 4 (C08)',
+        'technique': 'deterministic simulation of one process in which the same proof-expression objects are run through a seeded order of interpreter stacks (shared mutable thunk state is the schedule), outcomes compared across stacks',
+        'text': 'The claimed proof thunks of a composed module are run, as the same objects, through 5-8 interpreter stacks (conclusion-only, stateful, counting, serialising, pretty-printing, memoising with empty / finalize() / adversarial sets, instantiation-optimising, stacks of two transformers) in a seeded order inside one process; per thunk all stacks raise or none does and all conclusions are equal to each other and to the advertised one modulo notation; a thunk re-wrapped with a wrong advertised conclusion must fail everywhere. Weak-to-moderate fit: the order is a genuine schedule only because dynamic_inst mutates shared dictionaries while running.',
+        'note': 'Expressions are built only with the public DSL and the libraries. A per-stack wall-clock guard abandons a stack whose pretty printing of deeply nested notation is exponential; such runs are excluded from the determinism digests.',
+    },
     'C20': {
         'engine': 'E-trace', 'level': 'exploration', 'design_ref': 'DESIGN.md section 4 (C20)',
         'technique': 'deterministic simulation of rewrite-event streams with drop/duplicate/reorder/corrupt faults against a sequential reference model of the rewrite chain, followed by the generator -> checker pipeline',
